@@ -91,8 +91,8 @@ m("c09-delayed-purge-early", "C09", SHMD, "        if self.datasets[key].delayed
 m("c09-pageout-truncates", "C09", DISK, "                f.write(shm.buf[:])", "                f.write(shm.buf[: max(1, len(shm.buf) - (1 if len(shm.buf) > 8 else 0))])", "last byte lost on page-out of datasets > 8 B")
 m("c09-lock-stuck-again", "C09", SHMD, "        if not winners:\n            # nothing to page out now -- no callback will release the lock for us\n            self.pageout_all.release()\n            return\n", "", "re-introduces the stuck eviction lock")
 # ---- C10 ------------------------------------------------------------------------------------------------
-m("c10-sink-ps-plus-one", "C10", INTO, "                    sink_input_ps=rev_lookup[param],", "                    sink_input_ps=rev_lookup[param] + (1 if len(args) > 3 else 0),", "positional index shifted for long argument lists")
-m("c10-static-left-in-place", "C10", INTO, "            static_input_ps[str(rev_lookup[param])] = None\n", "", "the input's name stays as a static string (harmless: overwritten by the edge)")
+m("c10-sink-ps-plus-one", "C10", INTO, "                        sink_input_ps=position,", "                        sink_input_ps=position + (1 if len(args) > 3 else 0),", "positional index shifted for long argument lists")
+m("c10-static-left-in-place", "C10", INTO, "                static_input_ps[str(position)] = None\n", "", "the input's name stays as a static string (harmless: overwritten by the edge)")
 m("c10-second-exhaustion-check", "C10", R, "        if not assert_iter_empty(resultI):\n            raise ValueError(\n                \"function produced more results than there were schema outputs\"\n            )", "        pass", "too many yielded values go unnoticed")
 m("c10-one-fewer-again", "C10", R, "            try:\n                outputValue = next(resultI)\n            except StopIteration:\n                raise ValueError(\"schema declared more outputs than there were results\")", "            try:\n                outputValue = next(resultI)\n            except StopIteration:\n                break", "too few yielded values go unnoticed")
 # ---- C11 ------------------------------------------------------------------------------------------------
